@@ -21,6 +21,8 @@ def classify(prop, failures):
 
 def run_generic(prop, cfg, tier, seed, t0, post=None):
     level = cfg.get("level", "proof")
+    if level not in ("exploration", "fault_enumeration", "model_checking", "proof", "translation_validation", "other"):
+        level = "proof"
     problems = []          # things that break the proof or the correspondence (no input yet)
     notes = []
     # ---- 1. proof stage
